@@ -1,9 +1,11 @@
 """Engine: persistence of the pod/container cache (C10).
 
-1. design check: TLC exhaustively on MC_Persist (save protocol at system-call granularity with Crash / Fail / Tamper);
-   five deviation configurations (write in place, ignore the write error, rename before the data is written, unlink the
-   old file first, Stat instead of Lstat) MUST each violate their invariant, three reachability configurations MUST be
-   reachable -- the predicates can see the bug classes and the interesting situations exist
+1. design check: TLC exhaustively on MC_Persist (save protocol at system-call granularity with Crash / Fail / Tamper,
+   over SEVERAL generations: versions of different sizes, temporary files left behind by interrupted saves, memory that
+   is partly only loaded after a restart); deviation configurations (write in place, ignore the write error, rename
+   before the data is written, unlink the old file first, Stat instead of Lstat, temporary file opened without
+   truncation, a save that serializes only what was touched in this process) MUST each violate their invariant, five
+   reachability configurations MUST be reachable -- the predicates can see the bug classes and the situations exist
 2. drivers on the REAL code (harness/cmd/persistdrv):
    a. round trip: L2 request histories of both policies on a real resource manager; after EVERY request the cache is
       saved, its directory copied, re-opened by a fresh cache.NewCache and a projection through every public getter is
@@ -14,6 +16,10 @@
       by RLIMIT_FSIZE (error path and kill after the short write); then a fresh cache.NewCache on what is left
    c. unsafe paths: symlink / fifo / socket / wrong type / group- or other-writable cache file, directory, data dir
    d. the system calls naming the final path during a save (replace-by-rename only), inode change on every save
+   e. second / third generation: a cache loaded from a saved directory performs ONE saving operation before anything
+      is read from it; the directory is re-opened and compared with it (rt2)
+   f. a save after an interrupted save: restart on what a fault run left (temporary file included) or on a synthetic
+      leftover, one shrinking / growing mutation that saves once, reload (crash2)
 3. TLC evaluates the predicates of PersistPreds on the records (Trace_Persist); verdict from real-code records only.
 """
 import concurrent.futures as cf
@@ -21,6 +27,7 @@ import json
 import os
 import random
 import shutil
+import time
 
 import vlib
 from engines import l2gen
@@ -28,11 +35,15 @@ from engines import l2gen
 PROPS = ["C10"]
 PREDS = {"Act_ReloadEqualsLastSave", "Inv_FileIsCompleteSnapshot", "Inv_RefuseUnsafePath", "Act_OnlyRename", "Trace"}
 
-DEVIATIONS = {"inplace": "Inv_FileIsCompleteSnapshot", "ignore_write_error": "Inv_FileIsCompleteSnapshot",
-              "early_rename": "Inv_FileIsCompleteSnapshot", "unlink_first": "Inv_FileIsCompleteSnapshot",
-              "stat_follows_symlink": "Inv_RefuseUnsafePath"}
-REACH = ["Reach_TornTmpAfterCrash", "Reach_NewAfterCrashInSave", "Reach_Refused"]
+# (configuration name, Deviation, what TLC must report as violated, minimal number of Restart steps in the counterexample)
+DEVIATIONS = [("inplace", "inplace", "Inv_FileIsCompleteSnapshot", 0), ("ignore_write_error", "ignore_write_error", "Inv_FileIsCompleteSnapshot", 0),
+              ("early_rename", "early_rename", "Inv_FileIsCompleteSnapshot", 0), ("unlink_first", "unlink_first", "Inv_FileIsCompleteSnapshot", 0),
+              ("stat_follows_symlink", "stat_follows_symlink", "Inv_RefuseUnsafePath", 0),
+              ("no_trunc", "no_trunc", "Inv_FileIsCompleteSnapshot", 0), ("no_trunc_load", "no_trunc", "Inv_LoadsWithoutError", 1),
+              ("drop_untouched", "drop_untouched", "Act_ReloadEqualsLastSave", 2)]
+REACH = ["Reach_TornTmpAfterCrash", "Reach_NewAfterCrashInSave", "Reach_Refused", "Reach_SaveOverLongerLeftover", "Reach_SaveWhileUntouched"]
 STATE_NAMES = {"-1": "creating", "0": "unknown", "1": "created", "2": "paused", "3": "running", "4": "exited", "5": "stale"}
+GEN2 = (2, 2)   # a second generation for every n-th L2 round trip (quick, thorough); every decorated one gets it
 AFF = "resource-policy.nri.io/affinity"
 ANTI = "resource-policy.nri.io/anti-affinity"
 
@@ -42,23 +53,24 @@ ANTI = "resource-policy.nri.io/anti-affinity"
 def design_check(ctx):
     """Returns (baseline result, per-configuration summary)."""
     q = ctx.quick
-    chunks, maxver = (2, 3) if q else (3, 4)
+    chunks, maxver = (2, 4) if q else (3, 5)
 
     def cfg_for(name, dev, invs):
-        txt = ("SPECIFICATION Spec\nCONSTANTS\n  Chunks = %d\n  MaxVer = %d\n  Deviation = \"%s\"\nINVARIANTS %s\n"
-               "PROPERTIES Act_ReloadEqualsLastSave\nCHECK_DEADLOCK FALSE\n") % (chunks, maxver, dev, invs)
+        # an action property is checked on its own: the state invariants would fire first
+        body = "PROPERTIES Act_ReloadEqualsLastSave\n" if invs.startswith("Act_") else "INVARIANTS %s\nPROPERTIES Act_ReloadEqualsLastSave\n" % invs
+        txt = ("SPECIFICATION Spec\nCONSTANTS\n  Chunks = %d\n  MaxVer = %d\n  Deviation = \"%s\"\n%sCHECK_DEADLOCK FALSE\n") % (chunks, maxver, dev, body)
         p = ctx.path("mc", name + ".cfg")
         open(p, "w").write(txt)
         return p
 
-    jobs = [("base", cfg_for("base", "none", "TypeOK Inv_FileIsCompleteSnapshot Inv_LoadsWithoutError Inv_RefuseUnsafePath"), None)]
-    for d, inv in DEVIATIONS.items():
-        jobs.append(("dev_" + d, cfg_for("dev_" + d, d, inv), inv))
+    jobs = [("base", cfg_for("base", "none", "TypeOK Inv_FileIsCompleteSnapshot Inv_LoadsWithoutError Inv_RefuseUnsafePath"), None, 0)]
+    for name, d, inv, restarts in DEVIATIONS:
+        jobs.append(("dev_" + name, cfg_for("dev_" + name, d, inv), inv, restarts))
     for r in REACH:
-        jobs.append((r, cfg_for(r, "none", r), r))
+        jobs.append((r, cfg_for(r, "none", r), r, 0))
 
     def one(j):
-        name, cfgp, _ = j
+        name, cfgp = j[0], j[1]
         return vlib.tlc("MC_Persist", cfgp, ctx.path("mc", name), workers=4 if name != "base" else 8, timeout=300 if q else 1200)
     with cf.ThreadPoolExecutor(max_workers=len(jobs)) as ex:
         res = list(ex.map(one, jobs))
@@ -66,12 +78,16 @@ def design_check(ctx):
     base = res[0]
     if not base["ok"]:
         raise vlib.Inconclusive("design model check did not pass: violated=%s error=%s\n%s" % (base["violated"], base["error"], base["out"][-3000:]))
-    for (name, _, want), r in zip(jobs[1:], res[1:]):
+    for (name, _, want, restarts), r in zip(jobs[1:], res[1:]):
         if r["violated"] != want:
             raise vlib.Inconclusive("design configuration %s: expected TLC to violate %s, got violated=%s error=%s\n%s" % (
                 name, want, r["violated"], r["error"], r["out"][-2000:]))
-        summary[name] = {"violates": want, "after_states": r["distinct"]}
-    return base, summary, "Persist: %d chunks per snapshot, %d memory versions, Crash/Fail at every step, one tampered path at a time" % (chunks, maxver)
+        nrestart = r["out"].count("<Restart line")
+        if nrestart < restarts:
+            raise vlib.Inconclusive("design configuration %s: the counterexample has %d restarts, expected a history over >= %d" % (name, nrestart, restarts))
+        summary[name] = {"violates": want, "after_states": r["distinct"], "restarts_in_counterexample": nrestart}
+    return base, summary, ("Persist: up to %d chunks per snapshot (sizes differ by version), %d memory versions, Crash/Fail at every step, leftover temporary "
+                           "files, loaded-but-untouched memory after a restart, one tampered path at a time" % (chunks, maxver))
 
 
 # ------------------------------------------------------------------------------------------------ histories
@@ -131,7 +147,8 @@ def run_shards(ctx, binp, hs, outdir):
             return tp, 0, ""
         rc, out = vlib.sh([binp, "run", "--script", sp, "--out", tp, "--scratch", os.path.join(outdir, "scratch-%02d" % i),
                            "--shared", shared, "--from", str(a), "--to", str(b), "--snapout", snapdir, "--seed", str(ctx.seed),
-                           "--decors", "2" if ctx.quick else "3"], timeout=600 if ctx.quick else 2400)
+                           "--decors", "2" if ctx.quick else "3", "--gen2", str(GEN2[0 if ctx.quick else 1]), "--gen3", "5"],
+                          timeout=600 if ctx.quick else 2400)
         shutil.rmtree(os.path.join(outdir, "scratch-%02d" % i), ignore_errors=True)
         return tp, rc, out
     with cf.ThreadPoolExecutor(max_workers=shards) as ex:
@@ -189,6 +206,20 @@ def reduce_record(i, e):
         r["examples"] = {k: ascii_(v) for k, v in (e.get("examples") or {}).items()}
         r["diff"] = e.get("diff") or []
         r["api_panics"] = [{"fn": x["fn"], "msg": ascii_(x["msg"])} for x in (e.get("api_panics") or [])]
+    elif ev == "rt2":
+        r = {k: e.get(k) for k in ("ev", "h", "k", "op", "origin", "gen", "variant", "loaded", "equal")}
+        r["loaded"] = bool(e.get("loaded"))
+        r["loaderr"] = ascii_(e.get("loaderr", ""))
+        r["examples"] = {k: ascii_(v) for k, v in (e.get("examples") or {}).items()}
+        r["diff"] = e.get("diff") or []
+        r["api_panics"] = [{"fn": x["fn"], "msg": ascii_(x["msg"])} for x in (e.get("api_panics") or [])]
+    elif ev == "crash2":
+        r = {k: e.get(k) for k in ("ev", "snap", "variant", "point", "what", "mut", "loaded", "new_bytes", "snap_bytes", "bytes_equal", "tmp_left", "saveerr")}
+        r["loaderr"] = ascii_(e.get("loaderr", ""))
+        r["examples"] = {k: ascii_(v) for k, v in (e.get("examples") or {}).items()}
+        r["diff"] = e.get("diff") or []
+    elif ev == "leftover_obs":
+        r = {"ev": ev, "what": e.get("what", "")}
     elif ev == "crash":
         r = {k: e.get(k) for k in ("ev", "snap", "variant", "point", "kind", "sys", "loaded", "eq_old", "eq_new", "fired", "matched", "save_reported")}
         r["loaderr"] = ascii_(e.get("loaderr", ""))
@@ -215,8 +246,8 @@ def validate(ctx, recs, nchunks):
     """rt records are spread over chunks; plan/crash/touch/unsafe stay together (domain-coverage postcondition)."""
     red = [reduce_record(i, e) for i, e in enumerate(recs)]
     red = [r for r in red if r is not None]
-    rts = [r for r in red if r["ev"] in ("rt", "hang")]
-    rest = [r for r in red if r["ev"] not in ("rt", "hang")]
+    rts = [r for r in red if r["ev"] in ("rt", "rt2", "hang")]
+    rest = [r for r in red if r["ev"] not in ("rt", "rt2", "hang")]
     chunks = [rest] if rest else []
     per = max(1, (len(rts) + nchunks - 1) // nchunks)
     for a in range(0, len(rts), per):
@@ -254,7 +285,10 @@ def stats(recs):
           "boot_errors": 0, "op_panics": 0, "feat": {}, "feat_l2": {}, "live_hashes": set(), "info_diff": {}, "plans": 0, "plan_errors": [],
           "crash": 0, "crash_unfired": 0, "by_fault": {}, "outcomes": {}, "torn": 0, "touch": 0, "unsafe": {}, "unsafe_controls": {},
           "crash_cases": set(), "snap_hashes": set(), "harness_errors": [], "hangs": 0, "save_errors": [], "old_eq_new": 0,
-          "leftover_tmp": 0, "max_bytes": 0}
+          "leftover_tmp": 0, "max_bytes": 0,
+          "rt2": 0, "rt2_by": {}, "rt2_untouched": {}, "rt2_gen3": 0, "rt2_done": {}, "rt2_unequal": 0, "rt2_max_untouched": 0,
+          "crash2": 0, "crash2_shorter": 0, "crash2_longer": 0, "crash2_real_shorter": 0, "crash2_real": 0, "crash2_what": {}, "crash2_done": {},
+          "rt2_cases": set(), "crash2_cases": set(), "crash2_bad": 0, "crash2_no_snapshot_api": 0, "crash2_max_excess": 0, "obs": {}}
     for e in recs:
         ev = e["ev"]
         if ev == "reset":
@@ -282,6 +316,48 @@ def stats(recs):
             for f in e.get("info_diff") or []:
                 st["info_diff"][f] = st["info_diff"].get(f, 0) + 1
             st["max_bytes"] = max(st["max_bytes"], e.get("bytes") or 0)
+        elif ev == "rt2":
+            if e.get("harness_error"):
+                st["harness_errors"].append(e["harness_error"])
+                continue
+            st["rt2"] += 1
+            key = "%s_%s" % (e["origin"], e["policy"])
+            st["rt2_by"][key] = st["rt2_by"].get(key, 0) + 1
+            if e.get("saveerr"):
+                st["save_errors"].append(e.get("savemsg", ""))
+            # entries that sat in the loaded form when the save was made: in the file the instance started from AND read
+            # back by the projection afterwards
+            if e.get("entries_in_file", 0) >= 1 and e.get("entries_untouched", 0) >= 1:
+                st["rt2_untouched"][e["policy"]] = st["rt2_untouched"].get(e["policy"], 0) + 1
+                st["rt2_max_untouched"] = max(st["rt2_max_untouched"], e["entries_untouched"])
+            st["rt2_gen3"] += 1 if e.get("gen") == 3 else 0
+            d = e.get("done", "")
+            st["rt2_done"][d] = st["rt2_done"].get(d, 0) + 1
+            st["rt2_unequal"] += 0 if e.get("equal") else 1
+            st["rt2_cases"].add((e.get("live_hash"), e.get("gen"), d))
+        elif ev == "crash2":
+            st["crash2"] += 1
+            real = e.get("kind") != "synthetic"
+            st["crash2_real"] += 1 if real else 0
+            if e.get("saveerr"):
+                st["save_errors"].append(e.get("savemsg", ""))
+            if e.get("shorter"):
+                st["crash2_shorter"] += 1
+                st["crash2_real_shorter"] += 1 if real else 0
+                st["crash2_max_excess"] = max(st["crash2_max_excess"], e["leftover_bytes"] - e["new_bytes"])
+            elif e.get("new_bytes", 0) > e.get("leftover_bytes", 0):
+                st["crash2_longer"] += 1
+            st["crash2_cases"].add((e.get("snap"), e["what"], e.get("done"), e.get("point"), e.get("leftover_bytes")))
+            st["crash2_what"][e["what"]] = st["crash2_what"].get(e["what"], 0) + 1
+            st["crash2_done"][e.get("done", "")] = st["crash2_done"].get(e.get("done", ""), 0) + 1
+            st["crash2_no_snapshot_api"] += 1 if e.get("snap_bytes", -1) < 0 else 0
+            st["crash2_bad"] += 0 if (e.get("loaded") and not e.get("diff") and e.get("bytes_equal") and not e.get("tmp_left")) else 1
+        elif ev == "leftover_obs":
+            k = "%s: save %s%s; temp path then %s; cache path then %s; next start %s%s" % (
+                e["what"], e.get("save", "not tried").split(":")[0], " (blocked until a reader appeared)" if e.get("save_blocked") else "",
+                e.get("tmp_after", "?"), e.get("cache_after", "?"), e.get("next_start", "?").split(":")[0],
+                "; written THROUGH the link" if e.get("symlink_target_written") else "")
+            st["obs"][k] = st["obs"].get(k, 0) + 1
         elif ev == "plan":
             st["plans"] += 1
             if e.get("error"):
@@ -360,6 +436,32 @@ def vacuity(st, q):
             missing.append("unsafe path " + k)
     if st["touch"] < len(st["snap_hashes"]):
         missing.append("final-path observations")
+    # several generations
+    n2, n3, nc = (20, 5, 20) if q else (200, 50, 100)
+    for pol in ("ta", "balloons"):
+        if st["rt2_untouched"].get(pol, 0) < n2:
+            missing.append("second-generation saves of a %s cache with >= 1 policy entry untouched before the save: %d < %d" % (pol, st["rt2_untouched"].get(pol, 0), n2))
+    for k in ("l2_ta", "l2_balloons", "decor_ta", "decor_balloons"):
+        if not st["rt2_by"].get(k):
+            missing.append("second-generation round trips of origin " + k)
+    if st["rt2_gen3"] < n3:
+        missing.append("third-generation round trips: %d < %d" % (st["rt2_gen3"], n3))
+    for v in ("save", "insertpod", "deletectr", "setpolicy", "insertctr", "deletepod"):
+        if not st["rt2_done"].get(v):
+            missing.append("second-generation saving operation " + v)
+    if st["crash2_shorter"] < nc or st["crash2_longer"] < nc:
+        missing.append("saves after an interrupted save with a snapshot shorter / longer than the leftover: %d / %d < %d" % (
+            st["crash2_shorter"], st["crash2_longer"], nc))
+    if st["crash2_real_shorter"] < 5:
+        missing.append("saves shorter than a temporary file that a REAL interrupted save left: %d < 5" % st["crash2_real_shorter"])
+    for w in ("valid-longer", "valid-longer-mode-0600", "garbage-longer", "empty"):
+        if not st["crash2_what"].get(w):
+            missing.append("synthetic leftover " + w)
+    if not any(k.startswith(("kill@", "torn-kill@")) for k in st["crash2_what"]) or not any(k.startswith("error@") for k in st["crash2_what"]):
+        missing.append("leftovers of a killed and of a failed save")
+    for m in ("delbig", "delpod", "trim", "insertpod", "bigentry"):
+        if not st["crash2_done"].get(m):
+            missing.append("mutation after a leftover: " + m)
     return missing
 
 
@@ -367,7 +469,11 @@ def vacuity(st, q):
 
 def run(ctx):
     q = ctx.quick
+
+    def stage(msg):
+        vlib.log("C10 +%.1fs %s" % (time.time() - ctx.t0, msg))
     binp = vlib.build_harness(cmd="persistdrv")
+    stage("harness built")
     rc, out = vlib.sh(["strace", "-V"], timeout=20)
     if rc != 0:
         raise vlib.Inconclusive("strace is not available: " + out[-300:])
@@ -380,6 +486,7 @@ def run(ctx):
         mc = None
     else:
         mc, devs, desc = design_check(ctx)
+        stage("design check: %d states" % mc["distinct"])
         hs = gen_histories(ctx, binp)
         want = None
 
@@ -389,6 +496,7 @@ def run(ctx):
         return p
 
     recs = run_shards(ctx, binp, hs, sub("run"))
+    stage("round trips: %d records" % len(recs))
     nsn = 10 if q else 40
     if want is not None:
         snaps, variants = [], {}
@@ -411,6 +519,7 @@ def run(ctx):
             raise vlib.Inconclusive("persistdrv crash failed rc=%s: %s" % (rc, out[-2000:]))
         recs += vlib.read_ndjson(tp)
         shutil.rmtree(sub("crash", "work"), ignore_errors=True)
+    stage("crash enumeration: %d records" % len(recs))
     up = ctx.path("unsafe", "trace.ndjson")
     rc, out = vlib.sh([binp, "unsafe", "--out", up, "--work", sub("unsafe", "work")], timeout=300)
     if rc != 0:
@@ -420,7 +529,9 @@ def run(ctx):
     shutil.rmtree(os.path.join(ctx.out, "run", "snaps"), ignore_errors=True)
     vlib.write_ndjson(ctx.path("trace.ndjson"), recs)
 
+    stage("unsafe paths; validating")
     viols, consumed, nchunks = validate(ctx, recs, 4 if q else 16)
+    stage("validated %d records in %d chunks" % (consumed, nchunks))
     mine = [v for v in viols if v["pred"] in PREDS]
 
     st = stats(recs)
@@ -455,17 +566,21 @@ def run(ctx):
                    "records": [recs[v["src"]] for v in mine[:10] if 0 <= v.get("src", -1) < len(recs)]}
 
     samples = [e for e in recs if e["ev"] == "rt" and e["origin"] == "decor"][:1] + [e for e in recs if e["ev"] == "plan"][:1] + \
-              [e for e in recs if e["ev"] == "crash" and e["kind"] == "kill"][:2] + [e for e in recs if e["ev"] == "unsafe" and e["kind"] == "symlink"][:1]
+              [e for e in recs if e["ev"] == "crash" and e["kind"] == "kill"][:2] + [e for e in recs if e["ev"] == "unsafe" and e["kind"] == "symlink"][:1] + \
+              [e for e in recs if e["ev"] == "rt2" and e.get("entries_untouched")][:1] + [e for e in recs if e["ev"] == "crash2" and e.get("shorter")][:1]
     for s in samples:
         s.pop("examples", None)
     ncrash = len(st["crash_cases"])
     nun = sum(st["unsafe"].values()) + len(st["unsafe_controls"])
     cov = {
-        "evaluations": st["rt"] + st["crash"] + nun + st["touch"],
-        "distinct_nontrivial": len(st["live_hashes"]) + ncrash + len(st["unsafe"]),
-        "rule": "evaluations = round-trip comparisons (one per request of every history and per decoration round) + fault runs (one "
-                "child process per fault point) + unsafe-path cases + final-path observations. distinct_nontrivial = distinct live-cache "
-                "projections holding at least one container that were round-tripped + distinct (snapshot, variant, fault kind, system call, "
+        "evaluations": st["rt"] + st["rt2"] + st["crash"] + st["crash2"] + nun + st["touch"],
+        "distinct_nontrivial": len(st["live_hashes"]) + len(st["rt2_cases"]) + ncrash + len(st["crash2_cases"]) + len(st["unsafe"]),
+        "rule": "evaluations = round-trip comparisons (one per request of every history and per decoration round) + second/third "
+                "generation round trips + fault runs (one child process per fault point) + saves after an interrupted save + unsafe-path "
+                "cases + final-path observations. distinct_nontrivial = distinct live-cache "
+                "projections holding at least one container that were round-tripped + distinct (projection after the saving operation, generation, "
+                "operation) second/third generations + distinct (snapshot, leftover kind, mutation, fault point, leftover size) saves after an "
+                "interrupted save + distinct (snapshot, variant, fault kind, system call, "
                 "ordinal, errno, byte offset) fault points whose fault fired at the planned call + distinct unsafe (target, kind/mode) classes",
         "exhaustive": False,
         "fault_points_exhaustive_per_snapshot": True,
@@ -475,7 +590,17 @@ def run(ctx):
         "snapshot_content_seen": {STATE_NAMES.get(k[6:], k) if k.startswith("state_") else k: v for k, v in sorted(st["feat"].items())},
         "crash_snapshots": len(st["snap_hashes"]), "fault_runs": st["crash"], "faults_by_kind": st["by_fault"], "outcomes": st["outcomes"],
         "leftover_temp_files": st["leftover_tmp"], "unsafe_cases": st["unsafe"], "safe_controls_accepted": len(st["unsafe_controls"]),
-        "final_path_observations": st["touch"], "not_persisted_by_design": st["info_diff"], "l2_request_panics_seen": st["op_panics"],
+        "final_path_observations": st["touch"],
+        "second_generation": {"round_trips": st["rt2"], "by_origin_policy": st["rt2_by"], "third_generation": st["rt2_gen3"],
+                              "with_untouched_policy_entries_by_policy": st["rt2_untouched"], "most_untouched_entries": st["rt2_max_untouched"],
+                              "saving_operations": st["rt2_done"], "unequal": st["rt2_unequal"],
+                              "sampling": "every decorated round trip and every %d. L2 round trip" % GEN2[0 if q else 1]},
+        "save_after_interrupted_save": {"runs": st["crash2"], "on_leftovers_of_real_fault_runs": st["crash2_real"],
+                                        "new_snapshot_shorter_than_leftover": st["crash2_shorter"], "longer": st["crash2_longer"],
+                                        "shorter_after_a_real_leftover": st["crash2_real_shorter"], "largest_excess_bytes": st["crash2_max_excess"],
+                                        "leftover_kinds": st["crash2_what"], "mutations": st["crash2_done"], "not_exact": st["crash2_bad"],
+                                        "snapshot_bytes_not_available": st["crash2_no_snapshot_api"]},
+        "temp_path_not_a_plain_file_observed_only": st["obs"], "not_persisted_by_design": st["info_diff"], "l2_request_panics_seen": st["op_panics"],
         "trace_records_validated": consumed, "traces_validated_against_impl": nchunks,
         "predicates": sorted(PREDS - {"Trace"}),
     }
@@ -486,6 +611,8 @@ def run(ctx):
         "TLC and the Json community module; strace 6.x fault injection (a killed/failed system call is not executed)",
         "the projection reads the cache through its public API only; policy-private entry types (topology-aware 'allocations') are "
         "compared in their persisted JSON form",
+        "several generations: the second-generation instance performs one saving operation before anything is read from it (IDs come from "
+        "an earlier instance of the same file); the save after an interrupted save is the FIRST save of the restarted instance",
         "kill/error injection happens at system-call boundaries of the saving thread; writes cut short inside one write(2) are "
         "produced with RLIMIT_FSIZE; power loss (no fsync) is outside the property's 'process killed / write fails'",
         "creation times, pending-controller markers and the memoized pretty names are not persisted by design and are not compared",
